@@ -34,13 +34,16 @@ BOOL TerminateProcess(HANDLE h, UINT c) { (void) h; (void) c; return 1; }
 
 /* parent environment block served by GetEnvironmentStringsW */
 static TL wchar_t parent_block[4096]; static TL int parent_len;
-wchar_t *GetEnvironmentStringsW(void) { wchar_t *c = malloc(sizeof(wchar_t) * (size_t) (parent_len + 2)); memcpy(c, parent_block, sizeof(wchar_t) * (size_t) (parent_len + 2)); return c; }
+extern void *__real_malloc(size_t);
+wchar_t *GetEnvironmentStringsW(void) { wchar_t *c = __real_malloc(sizeof(wchar_t) * (size_t) (parent_len + 2)); memcpy(c, parent_block, sizeof(wchar_t) * (size_t) (parent_len + 2)); return c; }
 BOOL FreeEnvironmentStringsW(wchar_t *p) { free(p); return 1; }
 
 int MultiByteToWideChar(UINT cp, DWORD flags, LPCCH s, int n, LPWSTR out, int outn)
 {
-  (void) cp; (void) flags;
+  (void) cp;
   int len = n < 0 ? (int) strlen(s) + 1 : n;
+  /* the enumerations are ASCII; a byte >= 0x80 here is a lone byte that is not valid UTF-8: refused when validation is asked for */
+  if (flags & MB_ERR_INVALID_CHARS) for (int i = 0; i < len; i++) if ((unsigned char) s[i] >= 0x80) { SetLastError(1113 /* ERROR_NO_UNICODE_TRANSLATION */); return 0; }
   if (!out || outn == 0) return len;
   if (outn < len) { SetLastError(ERROR_INSUFFICIENT_BUFFER); return 0; }
   for (int i = 0; i < len; i++) out[i] = (wchar_t) (unsigned char) s[i];
@@ -73,7 +76,17 @@ BOOL CreateProcessW(LPCWSTR app, LPWSTR cmd, LPSECURITY_ATTRIBUTES pa, LPSECURIT
 /* --wrap=calloc: sizes of the buffers process_start allocates */
 extern void *__real_calloc(size_t, size_t);
 static TL size_t alloc_log[16][2]; static TL int nalloc;
-void *__wrap_calloc(size_t n, size_t sz) { if (nalloc < 16) { alloc_log[nalloc][0] = n; alloc_log[nalloc][1] = sz; nalloc++; } return __real_calloc(n, sz); }
+static TL int fail_alloc_at, alloc_seq;   /* "fault" mode: the k-th allocation of a start fails */
+void *__wrap_calloc(size_t n, size_t sz)
+{
+  if (fail_alloc_at && ++alloc_seq == fail_alloc_at) { SetLastError(8 /* ERROR_NOT_ENOUGH_MEMORY */); return NULL; }
+  if (nalloc < 16) { alloc_log[nalloc][0] = n; alloc_log[nalloc][1] = sz; nalloc++; }
+  return __real_calloc(n, sz);
+}
+void *__wrap_malloc(size_t n) { if (fail_alloc_at && ++alloc_seq == fail_alloc_at) return NULL; return __real_malloc(n); }
+extern void *__real_realloc(void *, size_t);
+void *__wrap_realloc(void *p, size_t n) { if (fail_alloc_at && ++alloc_seq == fail_alloc_at) return NULL; return __real_realloc(p, n); }
+static TL int cur_fault;
 
 static const char ALPHA[] = { 'a', ' ', '\t', '\n', '\v', '"', '\\' };
 #define NA 7
@@ -97,8 +110,10 @@ static void run_case(const char *const *argv, int envb, const char *const *envx,
   memset(&o, 0, sizeof o);
   o.env.behavior = envb; o.env.extra = envx;
   o.handle.in = (HANDLE) (intptr_t) 10; o.handle.out = (HANDLE) (intptr_t) 11; o.handle.err = (HANDLE) (intptr_t) 12; o.handle.exit = (HANDLE) (intptr_t) 13;
+  alloc_seq = 0; fail_alloc_at = cur_fault > 0 && cur_fault < 100 ? cur_fault : 0;
   int r = process_start(&h, argv, o);
-  printf("{\"id\":%ld,\"r\":%d,\"created\":%d,\"argv\":[", ++recid, r, created);
+  fail_alloc_at = 0;
+  printf("{\"id\":%ld,\"fault\":%d,\"r\":%d,\"created\":%d,\"argv\":[", ++recid, cur_fault, r, created);
   for (int i = 0; argv[i]; i++) { if (i) printf(","); print_codes(argv[i]); }
   printf("],\"cmd\":[");
   for (int i = 0; i < seen_cmd_n; i++) printf("%s%d", i ? "," : "", seen_cmd[i]);
@@ -182,6 +197,27 @@ int main(int argc, char **argv)
   } else if (!strcmp(mode, "triple")) {
     gen(L);
     for (int i = 0; i < nstrs; i++) for (int j = 0; j < nstrs; j++) for (int k = 0; k < nstrs; k++) { const char *a[] = { "prog", strs[i], strs[j], strs[k], NULL }; run_case(a, 1, NULL, noenv); }
+  } else if (!strcmp(mode, "len")) {
+    /* command lines of every total length up to L (buffer-size boundaries): a plain and a quoted last argument, and a
+       vector that reaches the length after its second argument */
+    for (int n = 1; n <= L; n++) {
+      char *s = malloc((size_t) n + 2); memset(s, 'a', (size_t) n); s[n] = 0;
+      const char *a1[] = { "p", s, NULL }; run_case(a1, 1, NULL, noenv);
+      if (n >= 3) { s[n / 2] = ' '; const char *a2[] = { "p", s, NULL }; run_case(a2, 1, NULL, noenv); s[n / 2] = 'a'; }
+      if (n % 7 == 0) { const char *a3[] = { "p", s, "b c", "d\\", "e", NULL }; run_case(a3, 1, NULL, noenv); }
+      free(s);
+    }
+  } else if (!strcmp(mode, "fault")) {
+    /* a failing allocation at every point of a start, and input that cannot be converted: no process may be created then,
+       and a start that does succeed must still pass exactly what was asked for */
+    static const char *ex1[] = { "A=1", "BB=two words", NULL }, *pe1[] = { "P=1", "=C:=C:\\x", NULL };
+    static const char *a1[] = { "prog", "two words", "q\"x", "tail\\", NULL };
+    for (int envb = 0; envb <= 1; envb++) for (int k = 1; k <= 9; k++) {
+      cur_fault = k; run_case(a1, envb, ex1, pe1); run_case(a1, envb, NULL, pe1);
+    }
+    static const char *exbad[] = { "NAME=caf\xE9", NULL }, *abad[] = { "prog", "caf\xE9", NULL }, *aok[] = { "prog", NULL };
+    cur_fault = 100; run_case(aok, 0, exbad, pe1); run_case(aok, 1, exbad, pe1); run_case(abad, 0, ex1, pe1);
+    cur_fault = 0;
   } else if (!strcmp(mode, "env")) {
     static const char *E[] = { "a=a", "a=", "=a", "a", " =a a", "aa==", "a= " };
     static const char *P[] = { "P=1", "Q= q", "=C:=x" };
